@@ -227,7 +227,9 @@ ORACLES = {
             _oracle('single-variable, comparisons with the constant None', 100, 1500, nvars=1, depth=2, neg=True, none_names=True,
                     vocab=['cmp', 'name', 'none']),
             _oracle('one comparison object standing at two places of the condition (and_ / or_ nestings)', 100, 1500, kind='reuse',
-                    shared_condition=True)],
+                    shared_condition=True),
+            _oracle('an explicitly supplied domain, also an empty one, is never replaced by the registry (let and predicate form)',
+                    100, 1500, kind='predform', allow_empty=True)],
     'C02': [_oracle('two variables over distinct objects that compare equal, join conditions', 100, 1500, nvars=2, depth=2, neg=False,
                     n=4, equal_values=True, vocab=['cmp', 'name']),
             _oracle('two variables, join conditions', 150, 2000, nvars=2, depth=2, neg=False, vocab=['cmp', 'name']),
@@ -261,7 +263,9 @@ ORACLES = {
             _oracle('the() with predicates, inside a query block', 60, 800, kind='the', inside='query', vocab=['pred', 'cmp'], n=4,
                     distinct_sizes=True)],
     'C08': [_oracle('interleavings of blocks, expression blocks, operator uses, constructions and result iterators', 200, 3000,
-                    kind='modes', steps=10, setof=True)],
+                    kind='modes', steps=10, setof=True),
+            _oracle('a @predicate call inside a rule block builds an expression; infer consumed under each ambient mode', 60, 600,
+                    kind='infer_modes')],
     'C09': [_oracle('predicates evaluated under interleaved modes (entity and set_of queries)', 200, 3000, kind='modes', steps=8,
                     predicates=True, setof=True),
             _oracle('the(set_of) with predicates, inside a rule block', 60, 800, kind='the', inside='rule', vocab=['pred', 'cmp'], n=4,
@@ -269,7 +273,9 @@ ORACLES = {
             _oracle('the() with predicates, inside a rule block', 80, 800, kind='the', inside='rule', vocab=['pred', 'cmp'], n=4, distinct_sizes=True),
             _oracle('the() with predicates, inside a query block', 80, 800, kind='the', inside='query', vocab=['pred', 'cmp'], n=4, distinct_sizes=True),
             _oracle('an() with predicates and attribute conditions', 100, 1500, nvars=1, depth=2, vocab=['pred', 'cmp', 'name'], neg=True),
-            _oracle('predicates inside a sub-query used as a domain, under each ambient mode', 60, 800, kind='domain_subquery')],
+            _oracle('predicates inside a sub-query used as a domain, under each ambient mode', 60, 800, kind='domain_subquery'),
+            _oracle('infer with class / function predicates consumed under each ambient mode (none, query block, rule block, the '
+                    "rule's own block); a @predicate call inside a rule block builds an expression", 80, 1000, kind='infer_modes')],
     'C15': [_oracle('an(entity) sub-query as a condition, and/or', 150, 2000, kind='subquery'),
             _oracle('correlated sub-query (its condition mentions the outer variable) after other conditions', 150, 2000,
                     kind='subquery', correlated=True),
@@ -376,6 +382,8 @@ ORACLES = {
     'C19': [_oracle('falsy attribute values as operands', 200, 3000, nvars=1, depth=2, falsy=True, neg=True, nested_neg=True),
             _oracle('falsy / None values as selected outputs', 100, 1500, kind='select', single_attr=True),
             _oracle('field constraints with None / falsy values in predicate-form terms', 100, 1500, kind='predform', allow_empty=True),
+            _oracle('concatenate over scalar attribute values incl. falsy ones (each counts as one element)', 100, 1500, kind='concat',
+                    scalars=True),
             _oracle('an expression object used as a condition, then as an operand', 100, 1500, kind='reuse'),
             _oracle('one expression that is a selected output AND a condition (either operand of or_ / and_) in the same query, '
                     'falsy data, evaluated twice', 150, 2000, kind='reuse', both_roles=True),
